@@ -549,44 +549,62 @@ def ilin_sub(a, b):
     return out
 
 
-def provably_le(a, b, rels):
-    """a <= b from linear arithmetic over the given (Le|Lt, x, y) facts: b - a is a non-negative
-    constant, or equals y - x of one fact"""
-    d = ilin_sub(b, a)
-    if d is None:
-        return False
-    if all(k is None for k in d) and d.get(None, 0) >= 0:
-        return True
+def _nonneg_forms(rels):
+    out = []
     for rel, x, y in rels:
         f = ilin_sub(y, x)
         if f is None:
             continue
-        if f == d:
+        if rel == "Le":
+            out.append(f)
+        elif rel == "Lt":
+            g = dict(f)
+            g[None] = g.get(None, 0) - 1
+            if g[None] == 0:
+                del g[None]
+            out.append(g)
+        elif rel == "Eq":
+            out.append(f)
+            out.append({k: -v for k, v in f.items()})
+    return out
+
+
+def _is_nonneg_const(d):
+    return all(k is None for k in d) and d.get(None, 0) >= 0
+
+
+def _minus(d, f):
+    out = dict(d)
+    for k, v in f.items():
+        out[k] = out.get(k, 0) - v
+        if out[k] == 0:
+            del out[k]
+    return out
+
+
+def provably_le(a, b, rels):
+    """a <= b by linear arithmetic: b - a is a non-negative constant plus the sum of at most two
+    quantities the given (Le|Lt|Eq, x, y) facts show to be non-negative"""
+    d = ilin_sub(b, a)
+    if d is None:
+        return False
+    if _is_nonneg_const(d):
+        return True
+    forms = _nonneg_forms(rels)
+    for f1 in forms:
+        d1 = _minus(d, f1)
+        if _is_nonneg_const(d1):
             return True
-        if rel == "Lt":
-            f2 = dict(f)
-            f2[None] = f2.get(None, 0) - 1
-            if f2[None] == 0:
-                del f2[None]
-            if f2 == d:
+    for i1, f1 in enumerate(forms):
+        d1 = _minus(d, f1)
+        for f2 in forms[i1:]:
+            if _is_nonneg_const(_minus(d1, f2)):
                 return True
     return False
 
 
 def provably_eq(a, b, rels):
-    d = ilin_sub(a, b)
-    if d is None:
-        return False
-    if not d:
-        return True
-    neg = {k: -v for k, v in d.items()}
-    for rel, x, y in rels:
-        if rel != "Eq":
-            continue
-        f = ilin_sub(x, y)
-        if f is not None and (f == d or f == neg):
-            return True
-    return False
+    return provably_le(a, b, rels) and provably_le(b, a, rels)
 
 
 # ----------------------------------------------------------------------------------------------
